@@ -6,7 +6,7 @@ git -C /repo worktree remove --force $wt 2>/dev/null
 git -C /repo worktree add -q $wt HEAD || exit 2
 (cd $wt && git apply /verif/seeded/$id/patch.diff) || { echo "patch does not apply"; git -C /repo worktree remove --force $wt; exit 2; }
 for c in "$@"; do
-  r=$(cd /verif && VERIF_EVIDENCE_DIR=/tmp/ev-seeded VERIF_REPO=$wt VERIF_PROCS=${VERIF_PROCS:-8} ./check $c 2>&1 | grep -E "^VIOLATION|^  rule|quick:|HARNESS" | head -9 | cut -c1-300)
+  r=$(cd /verif && VERIF_EVIDENCE_DIR=/tmp/ev-seeded VERIF_REPLAY_DIR=/tmp/replays-seeded VERIF_REPO=$wt VERIF_PROCS=${VERIF_PROCS:-8} ./check $c 2>&1 | grep -E "^VIOLATION|^  rule|quick:|HARNESS" | head -9 | cut -c1-300)
   n=$(echo "$r" | grep -c VIOLATION)
   echo "== $id $c: $( [ $n -gt 0 ] && echo DETECTED || echo missed )"; echo "$r" | grep -E "rule|quick|HARNESS" | head -4
 done
